@@ -19,6 +19,7 @@ const W_LIVE_SKIPPED: u64 = 2;
 const W_COLLISION: u64 = 4;
 const W_REJECTED_GAVE_UP: u64 = 8;
 const W_RETRY_SUCCEEDED: u64 = 16;
+const W_PEER_REOPENED_REJECTED_ID: u64 = 1 << 12;
 const W_ALL_PAIRED: u64 = 32;
 
 #[derive(Clone, Debug)]
@@ -333,13 +334,16 @@ fn exec_two(sc: &Scn, render: bool) -> RunOutput {
         }
     }
     if let (Some((side, id)), false) = (half_released.first(), viol.is_empty()) {
-        // Everything that goes wrong in such an execution is one and the same finding; report it under one specific key
-        // (crashes and hangs keep their own keys) so that the known-findings entry cannot hide anything else.
-        let consequences: Vec<String> = viol.iter().filter(|(k, _)| !matches!(k.as_str(), "panic" | "task.ended" | "livelock")).map(|(k, _)| k.clone()).collect();
-        let first = viol.iter().find(|(k, _)| !matches!(k.as_str(), "panic" | "task.ended" | "livelock")).map(|(_, d)| d.clone()).unwrap_or_default();
-        viol.retain(|(k, _)| matches!(k.as_str(), "panic" | "task.ended" | "livelock"));
+        // What finding F1 is known to cause (a stale flow-control Acknowledge of the old flow adopted as the handshake
+        // answer: wrong initial credit, and the wire monitor's per-id accounting mixes the two generations) is reported
+        // under ONE specific key, so that the known-findings entry cannot hide anything else: every other violation in
+        // such an execution keeps its own key.
+        const F1_SIGNATURE: [&str; 3] = ["handshake.ack-rwnd", "open.initial-credit", "ack.unreceived"];
+        let consequences: Vec<String> = viol.iter().filter(|(k, _)| F1_SIGNATURE.contains(&k.as_str())).map(|(k, _)| k.clone()).collect();
+        let first = viol.iter().find(|(k, _)| F1_SIGNATURE.contains(&k.as_str())).map(|(_, d)| d.clone()).unwrap_or_default();
+        viol.retain(|(k, _)| !F1_SIGNATURE.contains(&k.as_str()));
         if !consequences.is_empty() {
-            push_viol(&mut viol, &format!("reuse.half-released-id{}", if std::env::var("VERIF_F1_DETAIL").is_ok() { format!(".{}", consequences.join("+")) } else { String::new() }), format!("side {side} proposed flow id {id:#x} again after releasing it while side {} still held the old flow on that id; frames of the old flow that crossed the Connect were taken for the new request (consequences: {consequences:?}; first: {first})", 1 - side));
+            push_viol(&mut viol, "reuse.half-released-id", format!("side {side} proposed flow id {id:#x} again after releasing it while side {} still held the old flow on that id; frames of the old flow that crossed the Connect were taken for the new request (consequences: {consequences:?}; first: {first})", 1 - side));
         }
     }
     let mut h = Fnv::default();
@@ -360,11 +364,19 @@ fn exec_two(sc: &Scn, render: bool) -> RunOutput {
 }
 
 /// Raw peer that rejects the first `reject` Connects and (if `then_accept`) acknowledges the next one.
-fn exec_raw(retries: usize, reject: usize, then_accept: bool, script: &[u32], render: bool) -> RunOutput {
+fn exec_raw(retries: usize, reject: usize, then_accept: bool, reopen: bool, script: &[u32], render: bool) -> RunOutput {
     let cfg = SideCfg { opts: opts(2, 1).max_flow_id_retries(retries), rng: script.to_vec() };
     let mut w = World::one(UNBOUNDED_CAP, 0, &cfg);
     let mut raw = Raw::new(1, w.sim.link.clone());
     w.spawn_opener(0, 1, b"x".to_vec(), 5, EndPlan::Seq(vec![Op::W(1), Op::Shutdown]));
+    // `reopen`: right behind its first rejection the peer opens a stream of its own on the very id it has just rejected
+    const PEER_TAG: u8 = 9;
+    let mut reopened: Option<u32> = None;
+    if reopen {
+        let mut plans = BTreeMap::new();
+        plans.insert(PEER_TAG, EndPlan::Seq(vec![Op::ReadToEof(4), Op::W(1), Op::Shutdown]));
+        w.spawn_acceptor(0, 1, plans);
+    }
     let mut viol: Vec<(String, String)> = Vec::new();
     let mut fps = Vec::new();
     let mut wit = 0;
@@ -394,6 +406,14 @@ fn exec_raw(retries: usize, reject: usize, then_accept: bool, script: &[u32], re
                 if rejected < reject {
                     rejected += 1;
                     raw.send(&RFrame::Reset { id });
+                    if reopen && reopened.is_none() {
+                        reopened = Some(id);
+                        raw.send(&RFrame::Connect { id, rwnd: 2, port: 9, host: vec![PEER_TAG] });
+                        let data = crate::apps::payload(PEER_TAG, 1, 0, 2);
+                        raw.send(&RFrame::Push { id, data: data.clone() });
+                        w.obs.borrow_mut().dir(PEER_TAG, 0).written.extend(&data);
+                        raw.send(&RFrame::Finish { id });
+                    }
                 } else if then_accept {
                     raw.send(&RFrame::Acknowledge { id, n: 3 });
                 }
@@ -442,6 +462,21 @@ fn exec_raw(retries: usize, reject: usize, then_accept: bool, script: &[u32], re
     }
     if connect_ids.len() > 1 {
         wit |= W_COLLISION;
+    }
+    if let Some(id) = reopened {
+        // the stream the peer opened on the id it had just rejected is a stream like any other
+        let d = obs.dirs.get(&(PEER_TAG, 0)).cloned().unwrap_or_default();
+        if d.read != d.written || !d.eof {
+            push_viol(&mut viol, "reopen.peer-stream-disturbed", format!("the peer rejected Connect({id}) and at once opened its own stream on flow {id}; the accepting application read {:02x?} (eof={}) of {:02x?} + Finish", d.read, d.eof, d.written));
+        }
+        let resets = raw.frames().filter(|f| matches!(f, RFrame::Reset { id: i } if *i == id)).count();
+        if resets > 0 {
+            push_viol(&mut viol, "reopen.peer-stream-reset", format!("the endpoint sent {resets} Reset({id}) although the peer's own stream on that id did nothing wrong"));
+        }
+        if !raw.frames().any(|f| matches!(f, RFrame::Finish { id: i } if *i == id)) {
+            push_viol(&mut viol, "reopen.peer-stream-disturbed", format!("the accepting application answered and shut down, but no Finish({id}) reached the peer"));
+        }
+        wit |= W_PEER_REOPENED_REJECTED_ID;
     }
     for t in &w.sim.tasks {
         if let Some(p) = &t.panicked {
@@ -494,7 +529,13 @@ pub fn run(args: &Args) -> Report {
                     if !then_accept && reject < retries {
                         continue; // request legitimately pending forever
                     }
-                    cases.push(Case { try_unbounded: false, max_k: u32::MAX, label, exec: Box::new(move |r| exec_raw(retries, reject, then_accept, &sc2, r)) });
+                    cases.push(Case { try_unbounded: false, max_k: u32::MAX, label: label.clone(), exec: Box::new(move |r| exec_raw(retries, reject, then_accept, false, &sc2, r)) });
+                    if reject >= 1 && script.is_empty() {
+                        // (only with a generator that never repeats itself: a scripted re-draw of the rejected id would be a
+                        // legitimate simultaneous-open collision with the peer's own Connect)
+                        let sc3 = script.clone();
+                        cases.push(Case { try_unbounded: false, max_k: u32::MAX, label: format!("{label} | the peer opens its own stream on the id right behind its first rejection"), exec: Box::new(move |r| exec_raw(retries, reject, then_accept, true, &sc3, r)) });
+                    }
                 }
             }
         }
@@ -505,11 +546,11 @@ pub fn run(args: &Args) -> Report {
         fault: 0,
         total_wall: Duration::from_secs(if thorough { 1500 } else { 50 }),
         max_execs_per_case: 2_000_000,
-        required_witnesses: W_ZERO_SKIPPED | W_LIVE_SKIPPED | W_COLLISION | W_REJECTED_GAVE_UP | W_RETRY_SUCCEEDED | W_ALL_PAIRED,
+        required_witnesses: W_ZERO_SKIPPED | W_LIVE_SKIPPED | W_COLLISION | W_REJECTED_GAVE_UP | W_RETRY_SUCCEEDED | W_ALL_PAIRED | W_PEER_REOPENED_REJECTED_ID,
         adaptive: thorough,
-        witness_names: &[("zero_draw_skipped", W_ZERO_SKIPPED), ("live_id_draw_skipped", W_LIVE_SKIPPED), ("id_collision_and_retry", W_COLLISION), ("gave_up_with_FlowIdRejected", W_REJECTED_GAVE_UP), ("retry_succeeded", W_RETRY_SUCCEEDED), ("all_requests_paired", W_ALL_PAIRED)],
+        witness_names: &[("zero_draw_skipped", W_ZERO_SKIPPED), ("live_id_draw_skipped", W_LIVE_SKIPPED), ("id_collision_and_retry", W_COLLISION), ("gave_up_with_FlowIdRejected", W_REJECTED_GAVE_UP), ("retry_succeeded", W_RETRY_SUCCEEDED), ("all_requests_paired", W_ALL_PAIRED), ("peer_reopened_the_id_it_rejected", W_PEER_REOPENED_REJECTED_ID)],
     };
-    rep.rule = "psim: two real endpoints with scripted flow-id generators (first draw 0, draw of a live id, identical draws on both sides, repeated collisions; plus EVERY draw script of length 4 (thorough 5) over {0,1,2} for two simultaneous opens on one side against an opener drawing 1,2 on the other, and every script of length 3 over {0,4,5} against the raw peer), concurrent opens from both sides, hosts {empty, 255 bytes >= 0x80, binary} and ports {0,1,65535}, every schedule <= k deviations; plus a raw peer rejecting 0..3 proposals then accepting/silent, for max_flow_id_retries 1..3. Oracle: successful requests pair 1:1 with accepted streams carrying exactly the requested host/port and tagged data end to end; send credit at hand-out equals the other side's window (hook); no Connect with id 0 / a live id on the wire; failures only as FlowIdRejected after exactly max_flow_id_retries Connects; nothing pending, tables empty at the end".into();
+    rep.rule = "psim: two real endpoints with scripted flow-id generators (first draw 0, draw of a live id, identical draws on both sides, repeated collisions; plus EVERY draw script of length 4 (thorough 5) over {0,1,2} for two simultaneous opens on one side against an opener drawing 1,2 on the other, and every script of length 3 over {0,4,5} against the raw peer), concurrent opens from both sides, hosts {empty, 255 bytes >= 0x80, binary} and ports {0,1,65535}, every schedule <= k deviations; plus a raw peer rejecting 0..3 proposals then accepting/silent (also: opening its own stream on the id right behind its first rejection, which must work like any other stream), for max_flow_id_retries 1..3. Oracle: successful requests pair 1:1 with accepted streams carrying exactly the requested host/port and tagged data end to end; send credit at hand-out equals the other side's window (hook); no Connect with id 0 / a live id on the wire; failures only as FlowIdRejected after exactly max_flow_id_retries Connects; nothing pending, tables empty at the end".into();
     rep.assumptions = vec!["allocation races inside one poll (two threads in insert_new_flow) are not visible at poll granularity; they are covered by the loom model m7 (run by this check as well)".into()];
     run_cases(args, &mut rep, cases, &plan);
     rep
